@@ -181,6 +181,10 @@ class ManifestFileEntry(ManifestPathEntry):
             except StopIteration:
                 raise ManifestSyntaxError(
                     f'{data[0]} line: checksum {ckname} has no value')
+            if ckname in checksums:
+                raise ManifestSyntaxError(
+                    f'{data[0]} line: checksum {ckname} specified '
+                    f'more than once')
             checksums[ckname] = ckval
 
         return size, checksums
